@@ -222,8 +222,12 @@ pub(crate) async fn handle_run<'a>(
     if cfg.targets.is_empty() {
         return Err(MonorailError::from("No configured targets"));
     }
+    #[cfg(pnordahl_monorail_verif)]
+    crate::verif::point("run.begin");
     let mut tracking_run = get_next_tracking_run(cfg, &tracking_table)?;
     let run_path = setup_run_path(cfg, tracking_run.id, work_path)?;
+    #[cfg(pnordahl_monorail_verif)]
+    crate::verif::point("run.slot.ready");
     let commands = get_all_commands(cfg, &input.commands, &input.sequences)?;
     let mut argmap = ArgMap::new();
     let mut checkpointed = false;
@@ -301,6 +305,8 @@ pub(crate) async fn handle_run<'a>(
         &argmap,
     )?;
 
+    #[cfg(pnordahl_monorail_verif)]
+    crate::verif::point("run.exec.begin");
     let run_output = run_internal(
         cfg,
         plan,
@@ -310,12 +316,18 @@ pub(crate) async fn handle_run<'a>(
         checkpointed,
     )
     .await?;
+    #[cfg(pnordahl_monorail_verif)]
+    crate::verif::point("run.exec.end");
 
     // Store the run output record
     store_run_output(&run_output, &run_path)?;
+    #[cfg(pnordahl_monorail_verif)]
+    crate::verif::point("run.result.stored");
 
     // Update the run counter
     tracking_run.save()?;
+    #[cfg(pnordahl_monorail_verif)]
+    crate::verif::point("run.pointer.saved");
     Ok(run_output)
 }
 
@@ -602,6 +614,8 @@ fn setup_run_path(
     let run_path = cfg.get_run_path(work_path).join(format!("{}", run_id));
     // remove the run_path path if it exists, and create a new one
     std::fs::remove_dir_all(&run_path).unwrap_or(());
+    #[cfg(pnordahl_monorail_verif)]
+    crate::verif::point("run.slot.wiped");
     std::fs::create_dir_all(&run_path)?;
     Ok(run_path)
 }
@@ -955,6 +969,8 @@ async fn process_plan(
                     );
                 }
             }
+            #[cfg(pnordahl_monorail_verif)]
+            crate::verif::point("run.group.spawned");
             if process_task_results(
                 js,
                 plan_targets,
@@ -969,15 +985,23 @@ async fn process_plan(
             }
 
             crr.target_groups.push(result_target_group);
+            #[cfg(pnordahl_monorail_verif)]
+            crate::verif::point("run.group.drained");
 
             for client in compressor_clients {
+                #[cfg(pnordahl_monorail_verif)]
+                crate::verif::point("run.compressor.shutdown");
                 client.0.shutdown().await?;
+                #[cfg(pnordahl_monorail_verif)]
+                crate::verif::point("run.compressor.shutdown");
                 client.1.shutdown().await?;
             }
             // Unwrap for thread dyn Any panic contents, which isn't easily mapped to a MonorailError
             // because it doesn't impl Error; however, the internals of this handle do, so they
             // will get propagated.
             compressor_handle.join().unwrap()?;
+            #[cfg(pnordahl_monorail_verif)]
+            crate::verif::point("run.group.end");
         }
         results.push(crr);
     }
@@ -1016,6 +1040,8 @@ fn store_run_output(run_output: &RunOutput, run_path: &path::Path) -> Result<(),
         .truncate(true)
         .open(run_path.join(result::RESULT_OUTPUT_FILE_NAME))
         .map_err(|e| MonorailError::Generic(e.to_string()))?;
+    #[cfg(pnordahl_monorail_verif)]
+    crate::verif::point("run.result.opened");
     let bw = BufWriter::new(run_result_file);
     let mut encoder = zstd::stream::write::Encoder::new(bw, 3)?;
     serde_json::to_writer(&mut encoder, run_output)?;
